@@ -543,23 +543,38 @@ def swapA (a : Array G) (i j : Nat) : M (Array G) := do
   let a ← wr a i y
   wr a j x
 
+/-- `dst_vec[t + i] = src_vec[s + i]` — one iteration of a copy loop between two different vectors -/
+def copyFromStep (a : Array G) (s t : Nat) (i : Nat) (b : Array G) : M (Array G) := do
+  let g ← rd a (s + i); wr b (t + i) g
+
+/-- `info[dst + i] = info[src + i]` — one iteration of a copy loop inside one vector -/
+def copyStep (src dst : Nat) (i : Nat) (a : Array G) : M (Array G) := do
+  let g ← rd a (src + i); wr a (dst + i) g
+
+/-- `if l > r { for i in 0..n { info[start + r + i] = info[start + l + i] } }
+     else if l < r { for i in (0..n).rev() { … } }` with n = end - start - l - r -/
+def shiftPhase (a : Array G) (start end_ l r : Nat) : M (Array G) :=
+  if l > r then forUp (end_ - start - l - r) (copyStep (start + l) (start + r)) a
+  else if l < r then forDown (end_ - start - l - r) (copyStep (start + l) (start + r)) a
+  else pure a
+
+/-- `if c { info.swap(i, j) }` -/
+def optSwap (c : Bool) (a : Array G) (i j : Nat) : M (Array G) := if c then swapA a i j else pure a
+
 /-- the body of `if end - start >= l + r && …` after the two `merge_clusters` calls: the `buf[4]`
     juggling on `buffer.info`. -/
 def rearrangeCore (a : Array G) (start end_ l r : Nat) (revL revR : Bool) : M (Array G) := do
-  let buf : Array G := Array.replicate 4 G.dflt
-  let buf ← forUp l (fun i buf => do let g ← rd a (start + i); wr buf i g) buf
-  let buf ← forUp r (fun i buf => do let g ← rd a (end_ - r + i); wr buf (i + 2) g) buf
-  let n := end_ - start - l - r
-  let a ← if l > r then
-      forUp n (fun i a => do let g ← rd a (start + l + i); wr a (start + r + i) g) a
-    else if l < r then
-      forDown n (fun i a => do let g ← rd a (start + l + i); wr a (start + r + i) g) a
-    else pure a
-  let a ← forUp r (fun i a => do let g ← rd buf (2 + i); wr a (start + i) g) a
-  let a ← forUp l (fun i a => do let g ← rd buf i; wr a (end_ - l + i) g) a
-  let a ← if revL then swapA a (end_ - 1) (end_ - 2) else pure a
-  let a ← if revR then swapA a start (start + 1) else pure a
-  pure a
+  -- for (i, glyph_info) in buf[..l].iter_mut().enumerate() { *glyph_info = buffer.info[self.start + i] }
+  let buf ← forUp l (copyFromStep a start 0) (Array.replicate 4 G.dflt)
+  -- for i in 0..r { buf[i + 2] = buffer.info[self.end - r + i] }
+  let buf ← forUp r (copyFromStep a (end_ - r) 2) buf
+  let a ← shiftPhase a start end_ l r
+  -- for i in 0..r { buffer.info[self.start + i] = buf[2 + i] }
+  let a ← forUp r (copyFromStep buf 2 start) a
+  -- for i in 0..l { buffer.info[self.end - l + i] = buf[i] }
+  let a ← forUp l (copyFromStep buf 0 (end_ - l)) a
+  let a ← optSwap revL a (end_ - 1) (end_ - 2)
+  optSwap revR a start (start + 1)
 
 /-- decoded `MAP[verb]`: (l, r, reverse_l, reverse_r) -/
 def verbParams (verb : Nat) : Nat × Nat × Bool × Bool :=
